@@ -300,7 +300,7 @@ func runC03(c *vk.Ctx) {
 		"depth 2: selected recovered images are continued by a fresh writer (its own recorded trace) and crashed again. distinct non-trivial = distinct torn or depth-2 image contents that recovered to a prefix state")
 	c.Assume("storage model as in C02; torn states of an in-flight file are: absent, any prefix, zero-filled, prefix + stale tail",
 		"a recovered state must be the abstract index after some batch between the last acknowledged and the last started one")
-	runCrashEngine(c, crashRunOpts{traces: c.Pick(5, 60), batches: c.Pick(16, 30), allPrefix: !c.Quick(), depth2: c.Pick(4, 10), contBatches: c.Pick(8, 14)})
+	runCrashEngine(c, crashRunOpts{traces: c.Pick(5, 40), batches: c.Pick(16, 30), allPrefix: !c.Quick(), depth2: c.Pick(4, 10), contBatches: c.Pick(8, 14)})
 	c.Require("images_torn-prefix", 100)
 	c.Require("images_torn-zero", 20)
 	c.Require("depth2_continuations", 3)
